@@ -151,7 +151,7 @@ CHECKS['C14'] = {
     'units': ['obs'],
     'kani': [],
     'technique': 'contract-based deductive verification (Verus) of Subject::register / deregister / resource_changed / acknowledge read verbatim, with whole-view postconditions and a data-structure invariant (one observer per endpoint)',
-    'level_text': 'Unbounded proof per operation, for all registry states, endpoints, tokens and paths: register replaces the observer of the same endpoint in place (token, cleared counters) or appends a new one, creating the resource with sequence 0; deregister removes exactly the first observer whose endpoint AND token match on that path and nothing else; resource_changed for an unobserved path leaves the map unchanged; acknowledge changes no endpoint, token or order (only the counter and pending id of the first matching observer per resource); every operation changes only the entry of its own path (final map == old map with that one entry replaced) and preserves "endpoints pairwise distinct per resource". The history statement of C14 follows by induction over operations from these per-operation contracts.',
+    'level_text': 'Unbounded proof per operation, for all registry states, endpoints, tokens and paths: register replaces the observer of the same endpoint in place (token, cleared counters) or appends a new one, creating the resource if needed (an existing resource keeps its sequence number); deregister removes exactly the first observer whose endpoint AND token match on that path and nothing else; resource_changed for an unobserved path leaves the map unchanged; acknowledge changes no endpoint, token or order (only the counter and pending id of the first matching observer per resource); every operation changes only the entry of its own path (final map == old map with that one entry replaced) and preserves "endpoints pairwise distinct per resource". The history statement of C14 follows by induction over operations from these per-operation contracts.',
     'level_note': 'Trusted: see trusted_base. Subject::acknowledge is read with its loop turned into a for_each wrapper call (R30).',
     'trusted': [T_VERUS] + T_OBS,
     'explanation': 'unit obs',
@@ -161,7 +161,7 @@ CHECKS['C15'] = {
     'units': ['obs', 'resp15'],
     'kani': [],
     'technique': 'contract-based deductive verification (Verus) of Subject::resource_changed and acknowledge (closures verbatim with spliced contracts) and create_notification',
-    'level_text': 'Unbounded proof: each notification round on an observed resource sets sequence := sequence + 1, stamps every observer with the message id, adds 1 to its counter iff the round is confirmable, and keeps exactly (in order) the observers whose counter is <= the limit, for every limit 0..255; an acknowledgement resets exactly the first observer of each resource whose endpoint matches and whose pending message id is the acknowledged one (count := 0, pending id cleared), any other acknowledgement changes nothing; the counter addition is proved overflow-free from the invariant counter <= 255 (so whatever the limit and however long the history). create_notification yields version 1, CON/NON, 2.05, the given message id, token and payload and a single Observe option with the minimal uint of the sequence number.',
+    'level_text': 'Unbounded proof: each notification round on an observed resource sets sequence := sequence + 1, stamps every observer with the message id, adds 1 to its counter iff the round is confirmable, and keeps exactly (in order) the observers whose counter is <= the limit, for every limit 0..255; an acknowledgement resets exactly the first observer of each resource whose endpoint matches and whose pending message id is the acknowledged one (count := 0, pending id cleared), any other acknowledgement changes nothing; the counter addition is proved overflow-free from the invariant that between operations every stored counter is <= the configured limit <= 255 (so whatever the limit and however long the history; the limit is taken as fixed within a history, as in the property - set_unacknowledged_limit in the middle of a history is not covered). create_notification yields version 1, CON/NON, 2.05, the given message id, token and payload and a single Observe option with the minimal uint of the sequence number.',
     'level_note': 'Trusted: see trusted_base. Precondition: fewer than 2^32 rounds per resource (u32 sequence).',
     'trusted': [T_VERUS] + T_OBS + [T_UINT, T_R1, T_DEF],
     'explanation': 'units obs + resp(create_notification)',
@@ -176,7 +176,7 @@ CHECKS['C09'] = {
     'level': 'proof', 'units': ['blk'],
     'kani': [_k('negotiate_within_budget', 'the callee contract used for the 4.13 / size-hint decision: for budgets overhead+28..1280 a request is left unfragmented only if payload + overhead + 12 < budget; size hints are powers of two 16..1024 within the budget', timeout=900)],
     'technique': 'contract-based deductive verification (Verus) of maybe_handle_request_block1 read verbatim, against contracts of its callees; step contract over request, response and per-key state',
-    'level_text': 'Unbounded proof of the Block1 step for all requests and states: a block (num, more, szx) with payload p turns the buffer into splice(buffer zero-extended, [num*size, num*size+size) := p); a non-final block is answered 2.31 Continue with a Block1 option and does not reach the application (Ok(true), request untouched); the final block hands the whole buffer to the application (payload replaced, buffer released) and adds the Block1 acknowledgement; without a Block1 option an oversized request is answered 4.13 with a Block1 size hint. The in-order upload history follows by induction from the step contract (lemma in the same unit).',
+    'level_text': 'Unbounded proof of the Block1 step for all requests and states: a non-final block (num, szx) with a full payload p that starts inside or at the end of the buffered data leaves `buffer[0, num*size) ++ p` as the prefix of the buffer (what lies beyond is left open); a non-final block is answered 2.31 Continue with a Block1 option and does not reach the application (Ok(true), request untouched); the final block hands the application buffer[0, num*size) ++ p (zero-filled if the buffer is shorter; payload replaced, buffer released) and adds the Block1 acknowledgement; without a Block1 option an oversized request is answered 4.13 with a Block1 size hint. The upload history (in order, blocks delivered again, over an abandoned upload) follows by induction from the step contract: lemma_b1_step_prefix is the induction step, theorem_c09_upload_delivers_body the conclusion (same unit).',
     'level_note': _BLK_NOTE + ' Known finding D8 (duplicate FINAL block re-delivers a body) is outside the step contract and listed in known_findings.txt.',
     'trusted': [T_VERUS, T_R1] + T_BLK,
     'explanation': 'unit blk',
@@ -184,7 +184,7 @@ CHECKS['C09'] = {
 CHECKS['C08'] = {
     'level': 'proof', 'units': ['blk'], 'kani': [],
     'technique': 'contract-based deductive verification (Verus) of maybe_serve_cached_response, packet_clone_limited (loop invariant over the BTreeMap iteration), maybe_handle_request_block2, intercept_response read verbatim',
-    'level_text': 'Unbounded proof of the Block2 steps for all bodies, block numbers and sizes: block n of size s of the cached body exists iff n*s < len, carries exactly bytes [n*s, min((n+1)*s, len)), has the more flag set iff (n+1)*s < len, echoes number and size, and repeats every option of the cached reply; a follow-up request with a cached reply is served without consulting the application and the cache entry is released exactly when the block served was the last; a request without Block2 or without a cached reply passes through untouched.',
+    'level_text': 'Unbounded proof of the Block2 steps for all bodies, block numbers and sizes: block n of size s of the cached body exists iff n*s < len or n == 0 (an empty body is one empty block), carries exactly bytes [n*s, min((n+1)*s, len)), has the more flag set iff (n+1)*s < len, echoes number and size, and repeats every option of the cached reply; a follow-up request (block number above 0) with a cached reply is served without consulting the application and the cache entry is released exactly when the block served was the last; a request without Block2 or without a cached reply passes through untouched.',
     'level_note': _BLK_NOTE,
     'trusted': [T_VERUS, T_R1] + T_BLK,
     'explanation': 'unit blk',
